@@ -881,6 +881,10 @@ func main() {
 			return
 		}
 		r.CovAdd("frames_compared", int64(compared))
+		// a case is one execution of the real server: its states are the instants after each published event
+		r.AddStates(int64(len(sc.Seq) + 3))
+		r.AddTransitions(int64(len(sc.Seq) + 3))
+		r.AddTraces(1)
 		for _, v := range res {
 			r.Violation(v.key, fmt.Sprintf("[%s+%s seq=%v join=%d prolog=%v] %s", sc.C.Video, sc.C.Audio, sc.Seq, sc.Join, sc.Prolog, v.what), sc)
 		}
